@@ -362,3 +362,5 @@ pub mod obdd;
 pub mod parser;
 #[cfg(test)]
 mod test;
+#[cfg(adf_obdd_verif)]
+pub mod verif;
